@@ -40,6 +40,11 @@ Next ==
             c' = D("xp", m2, bin, bkey, bin, 4, ks[1], 4, r, ks[2], ks[3], 1)
      \/ \E m2 \in M2Out, bin \in Bs, bkey \in Bs, sin \in 1..MaxSIn, r \in Ranks, pc \in PCs : \E ks \in Keys(bkey) :
             c' = D("xp_assign", m2, bin, bkey, bin, sin, ks[1], sin, r, ks[2], ks[3], pc)
+     \/ \* output radix a multiple of the GGSW's: the product is accumulated in the GGSW radix while the result counts its limbs in
+        \* its own, so a GGSW of many narrow limbs feeds a result of few wide ones (precision must not be lost on the way)
+        \E op \in {"xp", "xp_assign"}, m2 \in {Unit(3, 1), Dense1}, bout \in {4, 6}, sout \in 2..3, skey \in {9, 12}, dsize \in 1..2, r \in Ranks, pc \in PCs :
+            /\ sout * bout <= 16
+            /\ c' = D(op, m2, IF op = "xp" THEN 2 ELSE bout, 2, bout, IF op = "xp" THEN 6 ELSE sout, skey, sout, r, skey \div dsize, dsize, pc)
      \/ \* CMux: the library requires one radix for branches, result and selector
         \E bit \in {0, 1}, b \in Bs, sin \in 1..MaxSIn, ds \in {-1, 0, 1}, r \in Ranks, pc \in PCs : \E ks \in Keys(b) :
             /\ sin + ds >= 1
